@@ -7,10 +7,11 @@ LEVELS = {0: 1, 1: 2, 2: 2, 3: 3, 4: 2, 5: 2, 6: 2, 7: 2, 8: 1, 9: 2}   # tree h
 
 OPN = {0: ['insert', 'erase(key)', 'erase_one(key)', 'erase(iterator from lower_bound)'], 1: ['copy-construct', 'assign', 'swap', 'clear', 'bulk_load of a symbolic sorted range', 'copy + insert + compare']}
 
-def mk(prop, cont, leaf, inner, bins, pre, ops, group, quick, gt=False, opk=None, timeout=None):
+def mk(prop, cont, leaf, inner, bins, pre, ops, group, quick, gt=False, opk=None, timeout=None, bulk=None):
     name = '%s_l%di%d_%s_p%d_g%d_k%d%s%s' % (CN[cont], leaf, inner, 'bin' if bins else 'lin', pre, group, ops, '_gt' if gt else '', '' if opk is None else '_o%d' % opk)
     defs = ['CONT=%d' % cont, 'LEAF=%d' % leaf, 'INNER=%d' % inner, 'BINSEARCH=%d' % bins, 'PRE=%d' % pre, 'OPS=%d' % ops, 'GROUP=%d' % group] + (['CMP_GREATER'] if gt else [])
     if opk is not None: defs.append('OPK=%d' % opk)
+    if bulk is not None: defs.append('BULKCNT=%d' % bulk); name += '_b%d' % bulk
     if prop == 'C02': defs.append('VERIFY')
     opsdesc = ('symbolic operations (%s)' % ' / '.join(OPN[group])) if opk is None else ('operation%s of kind %s with symbolic arguments' % ('s' if ops > 1 else '', OPN[group][opk]))
     return Query(name, SRC, 'h_btree',
@@ -34,14 +35,16 @@ def build(prop):
     for opk in (0, 1, 2, 3): qs.append(mk(prop, 0, 4, 4, 0, 8, 1, 0, True, opk=opk))      # emptying the tree and growing the first leaf
     for opk in (0, 1, 2): qs.append(mk(prop, 0, 4, 4, 1, 1, 1, 0, True, opk=opk))          # binary in-node search
     for opk in (0, 2): qs.append(mk(prop, 3, 4, 4, 0, 7, 1, 0, True, opk=opk))            # multimap, duplicate run (the 7-fold run of prefix 6: measured time-out at 3600 s, thorough tier)
-    for opk in (0, 1, 2, 3, 4, 5): qs.append(mk(prop, 2, 4, 4, 0, 1, 1, 1, True, opk=opk))  # map: whole-tree operations
+    for opk in (0, 1, 2, 3, 5): qs.append(mk(prop, 2, 4, 4, 0, 1, 1, 1, True, opk=opk))  # map: whole-tree operations
+    for bulk in (0, 1, 4, 5, 6, 9): qs.append(mk(prop, 2, 4, 4, 0, 1, 1, 1, bulk == 5, opk=4, bulk=bulk))   # bulk_load of a symbolic sorted range of enumerated length
     # thorough: containers x capacity pairs x both searches x scripts, one operation kind per query; two symbolic operations for (4,4)
     for cont in range(4):
         for pre in (0, 1, 2, 3, 4, 5, 6, 7, 8, 9):
             for opk in (0, 1, 2, 3): qs.append(mk(prop, cont, 4, 4, 0, pre, 1, 0, False, opk=opk))
     for cont in (0, 2):
         for pre in (1, 5):
-            for opk in (0, 1, 2, 3, 4, 5): qs.append(mk(prop, cont, 4, 4, 0, pre, 1, 1, False, opk=opk))
+            for opk in (0, 1, 2, 3, 5): qs.append(mk(prop, cont, 4, 4, 0, pre, 1, 1, False, opk=opk))
+            qs.append(mk(prop, cont, 4, 4, 0, pre, 1, 1, False, opk=4, bulk=5))
     for cont in (0, 1):
         for pre in (1, 2, 6):
             for opk in (0, 1, 2, 3): qs.append(mk(prop, cont, 4, 4, 1, pre, 1, 0, False, opk=opk))
